@@ -158,6 +158,8 @@ func (pg *Page) RenderTemplate(ctx context.Context, sym string, values map[strin
 	if pg.err != nil {
 		derr := pg.Error()
 		logg.DebugCtxf(ctx, "prepending error", "err", pg.err, "display", derr)
+		// the error text quotes client input: it is literal text, not template source
+		derr = strings.ReplaceAll(derr, "{{", "{{`{{`}}")
 		if len(tpl) == 0 {
 			tpl = derr
 		} else {
